@@ -135,6 +135,9 @@ class DilCase:
         self.tape = Tape(P["tape"])
         relay = W.start_relay() if P["relay"] else None
         self.relay = relay
+        if relay and P.get("relay_slow"):
+            # the relay answers SYNs only once stabilisation starts: dials to it stay in flight
+            W.net.slow_ports.add(4001)
         self.ws = []
         for i in range(2):
             w = W.create(dilation=P["dilation"][i], versions={"s": i})
@@ -372,6 +375,8 @@ class DilCase:
 
     def flush_intents(self, skip=("wclose",), after_step=None):
         """issue remaining intents in order (stabilisation), settling in between"""
+        if not self.P.get("relay_slow_forever"):
+            self.W.net.slow_ports.clear()
         progress = True
         while progress:
             progress = False
